@@ -5,7 +5,6 @@ import (
 	"errors"
 	"hash/maphash"
 	"io"
-	"math"
 	"reflect"
 	"slices"
 	"strings"
@@ -372,7 +371,7 @@ func (s unicodeString) utf16Runes() []rune {
 }
 
 func (s unicodeString) ToInteger() int64 {
-	return 0
+	return s.ToNumber().ToInteger()
 }
 
 func (s unicodeString) toString() String {
@@ -384,7 +383,8 @@ func (s unicodeString) ToString() Value {
 }
 
 func (s unicodeString) ToFloat() float64 {
-	return math.NaN()
+	// the string may be numeric once the non-ASCII white space is trimmed
+	return s.ToNumber().ToFloat()
 }
 
 func (s unicodeString) ToBoolean() bool {
